@@ -57,7 +57,8 @@ def _run_variant(args):
             return (kind, name, "broken-variant", f"variant does not parse: {e}")
     rc, rep = run_check(prop, "quick", overlays=overlays, write=False, quiet=True)
     fresh = getattr(rep, "fresh", [])
-    if rep.errors:
+    if rep.errors and not (kind in ("mutant", "seeded") and fresh):
+        # (a breaking change may remove an anchor of another rule; what counts for it is that a violation is reported)
         return (kind, name, "error", "; ".join(rep.errors)[:300])
     if kind in ("mutant", "seeded"):
         if not fresh:
